@@ -27,7 +27,7 @@ ASSUMPTIONS = [
     "noise sections contain no line starting with permit/deny/remark",
 ]
 REQUIRED = ["acls_ok", "binding_in_and_out_on_one_interface", "members_attached", "undefined_group",
-            "filtered", "aces_ok", "addrgroups_ok", "noise_between", "options_ok", "options_grouped"]
+            "filtered", "aces_ok", "addrgroups_ok", "noise_between", "options_ok", "options_grouped", "aces_grouped_ok"]
 
 
 def _K(tier):
@@ -282,12 +282,12 @@ def check(platform, arr, w, names, ctx, opts=None):
         ctx.out("noise_between")
     if acl_names and len(secs) > len(acl_names):
         ctx.nt((platform, w, str(names), tuple(arr)))
-    if names is not None or opts:
+    if names is not None or (opts and "group_by" not in opts):
         return
     # ---------------- aces(): every ACL body line of the configuration in order
     with capture_logs(logging.WARNING):
         try:
-            flat = cisco_acl.aces(config, platform=platform)
+            flat = list(_flat(cisco_acl.aces(config, platform=platform, **(opts or {}))))
         except Exception as ex:  # noqa
             ctx.viol("aces:exception", case, repr(ex), "list")
             return
@@ -305,6 +305,9 @@ def check(platform, arr, w, names, ctx, opts=None):
         ctx.viol("aces:lines_or_order", case, [o.line for o in flat], want_lines)
         return
     ctx.out("aces_ok")
+    if opts:
+        ctx.out("aces_grouped_ok")
+        return
     # ---------------- addrgroups()
     with capture_logs(logging.WARNING):
         try:
